@@ -454,15 +454,15 @@ Lemma tpdu_layouts_complete :
 Proof. vm_compute. reflexivity. Qed.
 
 (* the switch of Unmarshal as modelled ([struct_of] after [mt_set]) is the dispatch the
-   running code exhibited on all 16 combinations of SC presence, type bits and failure bit *)
-Definition dispatch_row_ok (row : bool * N * bool * option string) : bool :=
-  let '(sc, mti, failure, name) := row in
-  match struct_of (mt_set mti (if sc then 0 else 1)) failure, name with
+   running code exhibited on all 32 combinations of SC presence, type bits and next octet 00/7F/80/FF *)
+Definition dispatch_row_ok (row : bool * N * N * option string) : bool :=
+  let '(sc, mti, next, name) := row in
+  match struct_of (mt_set mti (if sc then 0 else 1)) (127 <? next), name with
   | Some a, Some b => String.eqb a b
   | None, None => true
   | _, _ => false
   end.
-Lemma tpdu_dispatch_ok : forallb dispatch_row_ok tpdu_dispatch = true /\ List.length tpdu_dispatch = 16%nat.
+Lemma tpdu_dispatch_ok : forallb dispatch_row_ok tpdu_dispatch = true /\ List.length tpdu_dispatch = 32%nat.
 Proof. split; vm_compute; reflexivity. Qed.
 
 Theorem sms_unmarshal_total bs :
